@@ -248,7 +248,9 @@ def parse_module(text):
                 def fld(rx):
                     x = re.search(rx, body); return x.group(1) if x else None
                 sc = fld(r'scope: !(\d+)'); fi = fld(r'file: !(\d+)'); ia = fld(r'inlinedAt: !(\d+)')
-                m.md[int(mm.group(1))] = (mm.group(2), int(sc) if sc else None, int(fi) if fi else None, int(ia) if ia else None, fld(r'filename: "([^"]*)"'))
+                fname = fld(r'filename: "([^"]*)"'); dname = fld(r'directory: "([^"]*)"')
+                if fname is not None and not fname.startswith('/') and dname: fname = dname.rstrip('/') + '/' + fname      # clang records paths relative to the compilation directory
+                m.md[int(mm.group(1))] = (mm.group(2), int(sc) if sc else None, int(fi) if fi else None, int(ia) if ia else None, fname)
             continue
         if l.startswith('source_filename') or l.startswith('target ') or l.startswith('$'): continue
         if l.startswith('attributes '):
